@@ -451,8 +451,11 @@ func (c *SCIONClient) measureClockOffsetSCION(ctx context.Context, mtrcs *scionC
 			decoded[len(decoded)-2] == slayers.LayerTypeEndToEndExtn {
 			tsOpt, err := e2eLayer.FindOption(scion.OptTypeTimestamp)
 			if err == nil {
+				// The option's content is network input: use its time only if it can be a
+				// receive time of this response, i.e., it lies between the transmission of the
+				// request and the local reception of the response.
 				cRxTime0, err := udp.TimestampFromOOBData(tsOpt.OptData)
-				if err == nil {
+				if err == nil && !cRxTime0.Before(cTxTime1) && !cRxTime0.After(cRxTime) {
 					cRxTime = cRxTime0
 				}
 			}
